@@ -1389,7 +1389,17 @@ impl BookedVersions {
                     // then we must have it as a fully applied or cleared version
                     None => true,
                 })
-                .unwrap_or(true)
+                // no seqs: the claim is about the whole version (an empty changeset).
+                // That is news as long as we only hold part of the version.
+                .unwrap_or_else(|| {
+                    !self.partials.get(&version).is_some_and(|partial| {
+                        partial
+                            .seqs
+                            .gaps(&(CrsqlSeq(0)..=partial.last_seq))
+                            .next()
+                            .is_some()
+                    })
+                })
     }
 
     pub fn contains_all(
